@@ -19,6 +19,10 @@ struct RedirectCout { std::string str() const; };
 template <class T> std::string serialize(const T&);
 template <class T> void deserialize(const std::string&, T&);
 }
+namespace Tools { struct Index { VERIF_NESTED }; }
+namespace POSEs { struct Frame { VERIF_NESTED }; }
+namespace Values { struct Entry { VERIF_NESTED }; }
+namespace Util { struct Id { VERIF_NESTED }; }
 namespace lib {
 namespace geo { struct Shape { VERIF_NESTED virtual ~Shape(); }; }
 template <class T> struct Box { VERIF_NESTED virtual ~Box(); };
